@@ -942,7 +942,10 @@ type ifFeatureEval struct {
 }
 
 func (y *ifFeatureEval) eval(greedy bool) {
-	for !y.end() {
+	// values this call has produced so far sit above base: none while an
+	// operand is expected, exactly one once an operator may follow
+	base := len(y.stack)
+	for !y.end() && y.lastErr == nil {
 		start := y.pos
 		tok := y.next()
 		switch tok {
@@ -950,29 +953,32 @@ func (y *ifFeatureEval) eval(greedy bool) {
 			// only blanks were left
 			return
 		case "(":
-			y.eval(false)
+			y.operand(base, false)
 			// the group ends at its own closing parenthesis, whatever operator
 			// was evaluated last inside of it
-			if y.next() != ")" {
-				y.lastErr = errors.New("syntax err in feature expression:" + y.expr)
-				return
+			if y.lastErr == nil && y.next() != ")" {
+				y.syntaxErr()
 			}
 		case ")":
 			// belongs to the group that opened it
 			y.pos = start
 			return
 		case "and":
-			y.eval(true)
+			y.operator(base, true)
 			a, b := y.pop(), y.pop()
 			y.push(a && b)
 		case "not":
-			y.eval(true)
+			y.operand(base, true)
 			y.push(!y.pop())
 		case "or":
-			y.eval(false)
+			y.operator(base, false)
 			a, b := y.pop(), y.pop()
 			y.push(a || b)
 		default:
+			if len(y.stack) != base {
+				y.syntaxErr()
+				return
+			}
 			_, found := y.features[tok]
 			y.push(found)
 		}
@@ -980,7 +986,36 @@ func (y *ifFeatureEval) eval(greedy bool) {
 			return
 		}
 	}
-	return
+}
+
+// operand evaluates what follows "(" or "not": nothing may precede it in this
+// group and it has to produce exactly one value
+func (y *ifFeatureEval) operand(base int, greedy bool) {
+	if len(y.stack) != base {
+		y.syntaxErr()
+		return
+	}
+	y.eval(greedy)
+	if y.lastErr == nil && len(y.stack) != base+1 {
+		y.syntaxErr()
+	}
+}
+
+// operator evaluates the right side of "and" / "or": exactly one value has to
+// precede it in this group and the right side has to produce exactly one more
+func (y *ifFeatureEval) operator(base int, greedy bool) {
+	if len(y.stack) != base+1 {
+		y.syntaxErr()
+		return
+	}
+	y.eval(greedy)
+	if y.lastErr == nil && len(y.stack) != base+2 {
+		y.syntaxErr()
+	}
+}
+
+func (y *ifFeatureEval) syntaxErr() {
+	y.lastErr = errors.New("syntax err in feature expression:" + y.expr)
 }
 
 func (y *ifFeatureEval) end() bool {
